@@ -8,8 +8,32 @@ import traceback
 from . import common
 
 
+def coqchk(rep, pid):
+    """thorough tier: the independent checker re-checks the property theorems of this run (the copy of props/<pid>.v and
+    every per-run theorem file <pid>_*.v compiled in the work dir) with everything they depend on, and prints the axioms."""
+    import glob
+    mods = []
+    for vo in sorted(glob.glob(os.path.join(rep.workdir, pid + "*.vo"))):
+        b = os.path.basename(vo)[:-3]
+        if (b == pid or b.startswith(pid + "_")) and os.path.getmtime(vo) >= rep.t_start - 1:   # compiled by THIS run only
+            mods.append("Gen." + b)
+    if not mods:
+        return
+    rc, out, _ = common.sh(["timeout", "1500", "coqchk", "-o", "-silent", "-Q", common.COQ, "Verif", "-Q", rep.workdir, "Gen"] + mods,
+                           cwd=rep.workdir, timeout=1600)
+    txt = " ".join(out.split())
+    ax = txt[txt.find("* Axioms:"):][:300] if "* Axioms:" in txt else txt[-300:]
+    if rc == 124:   # the re-check replays every vm_compute cast single-threaded: running out of time is not a verdict
+        rep.coverage["coqchk"] = "not completed within the time limit (%s)" % ", ".join(mods)
+        return
+    rep.coverage["coqchk"] = ("ok (%s): %s" % (", ".join(mods), ax)) if rc == 0 else "FAILED"
+    if rc:
+        rep.broken.append("coqchk props/%s.vo" % pid)
+        rep.notes.append(out[-1500:])
+
+
 def main():
-    ap = argparse.ArgumentParser()
+    ap =argparse.ArgumentParser()
     ap.add_argument("pid")
     ap.add_argument("--tier", default=os.environ.get("VERIF_TIER", "quick"), choices=["quick", "thorough"])
     ap.add_argument("--replay")
@@ -21,11 +45,14 @@ def main():
     if a.replay:
         sys.exit(mod.replay(a.replay))
     rep = common.Report(pid, a.tier, a.seed, level=getattr(mod, "LEVEL", "proof"))
+    rep.t_start = __import__("time").time()
     try:
         # the static development first (a no-op when setup.sh has built it): generated files are then always compiled
         # against the current .vo files, never against stale ones
         common.ensure_static()
         mod.run(rep)
+        if a.tier == "thorough" and "coqchk" not in rep.coverage:
+            coqchk(rep, pid)
     except Exception:  # the machinery itself failed: fail closed, say so
         tb = traceback.format_exc()
         rep.notes.append("harness exception:\n" + tb)
